@@ -555,6 +555,22 @@ Definition f_denote (v : f64) : tval :=
 
 Definition timeout_parse (s : list Z) : option f64 := parse_time s (Some timeout_default_unit).
 
+(* parse_time(arg: int | float, default_unit) = parse_time(str(arg) + default_unit, default_unit=None)
+   when a default unit is given ([text] = str(arg): str_of_Z of an int, float_repr of a float);
+   a number in halmos.toml reaches ParseTimeout.parse this way *)
+Definition parse_time_num (text : list Z) (default_unit : option (list Z)) : option f64 :=
+  match default_unit with
+  | Some u => if nonempty u && negb (mem_str u time_allowed_default_units) then None
+              else if nonempty u then parse_time (text ++ u) None else None
+  | None => None
+  end.
+
+Definition timeout_parse_int (i : Z) : option f64 :=
+  parse_time_num (str_of_Z i) (Some timeout_default_unit).
+
+Definition timeout_parse_float (x : f64) : option f64 :=
+  parse_time_num (float_repr x) (Some timeout_default_unit).
+
 (* ParseTimeout.unparse(value); None = raises
      if value == value and abs(value) != float("inf"):
          if value >= 1 and value == int(value): return f"{int(value)}s"
